@@ -86,8 +86,28 @@ def main(argv):
     infra += i
     ev += e
     di += d
+    # (3) schedules: write sessions whose stream ends exactly on / off a container boundary, every single deviation (and pairs, thorough)
+    from checks import sessions as S
+    sexe = driver.harness("h_session", "sched")
+    scfgs = []
+    for b in (1, 2) if not quick else (1,):
+        for c in (16, 32, 48, 64, 96):
+            for objs in ([48], [96], [48, 48], [48, 96], [96, 96, 48]):
+                for lv in (0, 6):
+                    for rpv in (0, 1):
+                        if b == 2 and (len(objs) > 2 or lv):
+                            continue
+                        scfgs.append(S.cfg("w", objs, 64, c, 2, -1, "close", lv, rpv, bound=b, single=1))
+    sres = driver.run_configs(sexe, scfgs, deadline_s=40 if quick else 600)
+    agg = driver.summarise(sres)
+    for r in agg["violations"]:
+        viol.append(driver.sched_violation("C14", r, "sched", "h_session"))
+    infra += agg["infra"]
+    ev += agg["executions"]
+    di += agg["distinct_traces"]
     rule = ("evaluations = write sessions (per heap pattern, plus the repeated ones) + encodings per build; distinct = distinct files / encodings; "
             "every (objects, configuration) pair is required to give byte-identical output in all runs")
     return enumcheck.finish("C14", tier, seed, t0, viol, infra, ev, di, samples, rule, ASSUME,
                             extra={"heap_patterns": sorted(poison), "sessions_compared_across_patterns": len(runs["heap=none"]),
-                                   "encodings_compared_across_builds": len(enc["build=plain"])})
+                                   "encodings_compared_across_builds": len(enc["build=plain"]),
+                                   "write_session_schedules_explored": agg["executions"], "write_session_configurations": agg["configs"]})
